@@ -307,35 +307,13 @@ def sparseToSyms (n : Nat) (l : List (Nat × Nat)) : List Nat :=
     | some qs => qs.2
     | none => 0
 
-/-! ### specification of the asymmetric error set, as a finite check -/
+/-! ### specification of the asymmetric error set -/
 
-/-- base-4 value of a string, most significant symbol first -/
-def strIndex (l : List Nat) : Nat := l.foldl (fun acc s => acc * 4 + s) 0
-
-/-- `nx + ny + (p/q)·nz < d` and not the identity -/
+/-- `nx + ny + (p/q)·nz < d` and not the identity, for a string of symbols (I=0 X=1 Y=2 Z=3) -/
 def asymCond (d p q : Nat) (l : List Nat) : Bool :=
   let nxy := (l.filter fun s => s == 1 || s == 2).length
   let nz := (l.filter (· == 3)).length
   (nxy + nz != 0) && decide (nxy * q + nz * p < d * q)
-
-/-- the set of strings of `n` symbols satisfying the bound, as a bit set indexed by `strIndex` -/
-def asymSpecMask (n d p q : Nat) : Nat :=
-  (allSymsL n).foldl (fun m l => if asymCond d p q l then m ||| (1 <<< strIndex l) else m) 0
-where
-  allSymsL : Nat → List (List Nat)
-    | 0 => [[]]
-    | n + 1 => [0, 1, 2, 3].flatMap fun s => (allSymsL n).map (s :: ·)
-
-/-- insert indices into a bit set; `none` on a duplicate -/
-def insertAll : List Nat → Nat → Option Nat
-  | [], m => some m
-  | i :: l, m => if m.testBit i then none else insertAll l (m ||| (1 <<< i))
-
-/-- `asymErrorSet n d p q` lists exactly the strings with `nx+ny+(p/q)nz < d`, each once -/
-def asymCheck (n d p q : Nat) : Bool :=
-  match insertAll ((asymErrorSet n d p q).map fun e => strIndex (sparseToSyms n e)) 0 with
-  | some m => m == asymSpecMask n d p q
-  | none => false
 
 /-! ### per-code obligations (tableau level, evaluated in the kernel) -/
 
